@@ -247,7 +247,7 @@ theorem doCommit_pine_none (c : Cfg) {st : Store} {ik : Bytes} (h : st.get ik = 
   cases f <;> simp [doCommit, commit, applyOps, applyOp, h]
 
 theorem creatorCreate_same {c1 c2 : Cfg} (h1 : c1.q.casMissingNotFound = false)
-    (h2 : c2.q.casMissingNotFound = false) (st : Store) (key val : Bytes) (rev : Nat) (fs : List Fault) :
+    (h2 : c2.q.casMissingNotFound = false) (h3 : c1.creatorTombAboveIsCf = c2.creatorTombAboveIsCf) (st : Store) (key val : Bytes) (rev : Nat) (fs : List Fault) :
     CreateSame st (creatorCreate c1 st key val rev fs) (creatorCreate c2 st key val rev fs) := by
   cases hg : st.get (idxKey key) with
   | none =>
@@ -264,16 +264,20 @@ theorem creatorCreate_same {c1 c2 : Cfg} (h1 : c1.q.casMissingNotFound = false)
       simp only []
       split
       · exact (doCommit_same h1 h2 st _ _).toCreate _
-      · exact .conflict _ _ _ _ _
+      · unfold tombAbove
+        rw [h3]
+        split
+        · exact .err _ _
+        · exact .conflict _ _ _ _ _
 
 /-! ### writes -/
 
 theorem doCreate_indep {c1 c2 : Cfg} (h1 : c1.q.casMissingNotFound = false)
-    (h2 : c2.q.casMissingNotFound = false) (s : BState) (key val : Bytes) (fs : List Fault) :
+    (h2 : c2.q.casMissingNotFound = false) (h3 : c1.creatorTombAboveIsCf = c2.creatorTombAboveIsCf) (s : BState) (key val : Bytes) (fs : List Fault) :
     doCreate c1 s key val fs = doCreate c2 s key val fs := by
   unfold doCreate
   simp only []
-  have h := creatorCreate_same h1 h2 s.store key val (s.dealt + 1) fs
+  have h := creatorCreate_same h1 h2 h3 s.store key val (s.dealt + 1) fs
   generalize creatorCreate c1 s.store key val (s.dealt + 1) fs = x at h ⊢
   generalize creatorCreate c2 s.store key val (s.dealt + 1) fs = y at h ⊢
   cases h <;> rfl
@@ -286,14 +290,14 @@ theorem conflict_beq_uncertain (i : Option Nat) (v : Option Bytes) :
   simp
 
 theorem doUpdate_indep {c1 c2 : Cfg} (h1 : c1.q.casMissingNotFound = false)
-    (h2 : c2.q.casMissingNotFound = false) (s : BState)
+    (h2 : c2.q.casMissingNotFound = false) (h3 : c1.creatorTombAboveIsCf = c2.creatorTombAboveIsCf) (s : BState)
     (key val : Bytes) (hb : bget c1 s.store key 0 = bget c2 s.store key 0)
     (exp : Nat) (fs : List Fault) :
     doUpdate c1 s key val exp fs = doUpdate c2 s key val exp fs := by
   unfold doUpdate
   simp only []
   split
-  · have h := creatorCreate_same h1 h2 s.store key val (s.dealt + 1) fs
+  · have h := creatorCreate_same h1 h2 h3 s.store key val (s.dealt + 1) fs
     generalize creatorCreate c1 s.store key val (s.dealt + 1) fs = x at h ⊢
     generalize creatorCreate c2 s.store key val (s.dealt + 1) fs = y at h ⊢
     cases h with
